@@ -22,6 +22,7 @@ def run(ctx):
     E.r_fifo(prog, rep)
     E.r_fresh_value(prog, rep)
     E.r_singleuse_bits(prog, rep)
+    E.r_request_flags(prog, rep)
     E.r_invalid_window(prog, rep)
     E.r_epoch_persist(prog, rep)
     E.r_state_order(prog, rep)
